@@ -40,6 +40,9 @@ template <int S, int D> struct Run {
     if (cv != stored_valid) return fail(fmt("checkValidity() = %s but the stored problem is %s", cv ? "true" : "false", stored_valid ? "valid" : "invalid"));
     if (msg.empty() != cv) return fail("checkValidity(&msg): message emptiness does not match its verdict");
     if (!any_stored && cv) return fail("checkValidity() true with nothing stored");
+    // asking again with an out-parameter must not wipe the stored explanation of a rejected problem (seeded change C16-m8)
+    if (!want && !cv && o.getLastError().empty()) return fail("after checkValidity(&msg) on a rejected problem getLastError() is empty although isValid() is false");
+    if (o.isValid() != want || (bool)o != want) return fail("checkValidity(&msg) changed the validity flag");
     return true;
   }
   void single_and_pairs(int N) {
